@@ -23,8 +23,16 @@ def run(tier, rep, replay=None):
     # ---- sequential histories
     drv = C.go_build_driver(w, "c11")
     tp = os.path.join(w, "seq.ndjson")
-    C.run([drv, "-out", tp, "-seed", str(C.SEED), "-reps", "6" if thorough else "1", "-scale", "3" if thorough else "1"], timeout=3300, what="c11 driver")
+    ap = os.path.join(w, "args.ndjson")
+    C.run([drv, "-out", tp, "-seed", str(C.SEED), "-reps", "6" if thorough else "1", "-scale", "3" if thorough else "1", "-args", ap], timeout=3300, what="c11 driver")
     lines = C.read_ndjson(tp)
+    alines = C.read_ndjson(ap)
+    abad, _ = C.validate_lines(w, "Trace_Conc", "Lines.cfg", alines)
+    for i in abad:
+        ln = alines[i]
+        what = "panic" if ln["panics"] else ("argument-modified" if not ln["args_intact"] else ("writes-past-argument" if not ln["canaries_intact"] else "result-depends-on-layout"))
+        rep.violation("args:%s:%s" % (ln["call"], what), {"observed": ln, "explain": "a byte-slice argument presented as a window of a larger buffer: the call wrote to the caller's memory, or returned something else than on private copies"})
+    rep.add(args_calls=len(alines), args_kinds=sorted({l["call"] for l in alines}))
     acc, rejected, states = C.validate_stateful(w, "Trace_PureCalls", "Trace_PureCalls.cfg", lines, max_rounds=40, timeout=3000)
     for t, ln, tail in rejected:
         if t == -1:
